@@ -447,7 +447,44 @@ def handler(p):
             res['init'].append(run_init(a))
         res['files'] = [run_file_case(n, c, loader, bp, by_name) for n, c in enumerate(p.get('files', []))]
         return res
+    if op == 'fq':
+        return {'fq': [run_fq_case(n, c) for n, c in enumerate(p.get('cases', []))]}
     raise ValueError(op)
+
+
+def run_fq_case(n, c):
+    """write the given file contents byte for byte, iterate FastqIterator over them"""
+    import gzip as _gz
+    try:
+        from singlecellmultiomics.fastqProcessing.fastqIterator import FastqIterator
+        paths = []
+        for j, text in enumerate(c['texts']):
+            path = os.path.abspath('fq_%d_%d.fastq%s' % (n, j, '.gz' if c.get('gz') else ''))
+            data = text.encode('latin-1')
+            with (_gz.open(path, 'wb') if c.get('gz') else open(path, 'wb')) as h:
+                h.write(data)
+            paths.append(path)
+        out = []
+        with Quiet():
+            it = FastqIterator(*paths)
+            for tup in it:
+                row = []
+                for r in tup:
+                    try:
+                        row.append([r.header, r.sequence, r.plus, r.qual])
+                    except AttributeError:
+                        row.append([r[0], r[1], r[2], r[3]])
+                out.append(row)
+                if len(out) > 2000:
+                    return {'error': 'no-stop'}
+        for h in getattr(it, 'handles', ()):
+            try:
+                h.close()
+            except BaseException:
+                pass
+        return {'recs': out}
+    except BaseException as e:
+        return {'error': '%s: %s' % (type(e).__name__, e)}
 
 
 FHDR = '@NS500414:628:H7YVNBGXC:1:11101:%d:1046 %d:N:0:GTGAAA'
